@@ -314,6 +314,20 @@ fn validate_heights_on_ladder(dimensions: &[Dimensions]) -> Result<(), CircuitBu
     Ok(())
 }
 
+/// Cap height (`log2` of the number of entries) of a Merkle cap taken from a proof.
+///
+/// The cap is prover-supplied: an empty cap or one whose size is not a power of two is a
+/// malformed commitment and must be reported as an error, not a panic.
+fn merkle_cap_height(commitment_cap: &[Vec<Target>]) -> Result<usize, CircuitBuilderError> {
+    if !commitment_cap.len().is_power_of_two() {
+        return Err(CircuitBuilderError::Poseidon2ConfigMismatch {
+            expected: "a Merkle cap with a non-zero power-of-two number of entries".into(),
+            got: format!("a Merkle cap with {} entries", commitment_cap.len()),
+        });
+    }
+    Ok(log2_strict_usize(commitment_cap.len()))
+}
+
 /// Recursive version of `MerkleTreeMmcs::verify_batch`. Adds a circuit that verifies an opened
 /// batch of rows with respect to a given commitment (Merkle cap).
 ///
@@ -378,17 +392,8 @@ where
 
     validate_heights_on_ladder(dimensions)?;
 
-    assert!(
-        !commitment_cap.is_empty(),
-        "commitment cap must have at least one entry"
-    );
-
     // Derive cap_height from commitment size: cap has 2^cap_height entries
-    let cap_height = if commitment_cap.len() == 1 {
-        0
-    } else {
-        log2_strict_usize(commitment_cap.len())
-    };
+    let cap_height = merkle_cap_height(commitment_cap)?;
 
     let max_height_log = index_bits.len();
     if cap_height > max_height_log {
@@ -502,16 +507,7 @@ where
 
     validate_heights_on_ladder(dimensions)?;
 
-    assert!(
-        !commitment_cap.is_empty(),
-        "commitment cap must have at least one entry"
-    );
-
-    let cap_height = if commitment_cap.len() == 1 {
-        0
-    } else {
-        log2_strict_usize(commitment_cap.len())
-    };
+    let cap_height = merkle_cap_height(commitment_cap)?;
 
     let max_height_log = index_bits.len();
     if cap_height > max_height_log {
@@ -1160,11 +1156,6 @@ fn arity4_prepare<EF: Field>(
         });
     }
 
-    assert!(
-        !commitment_cap.is_empty(),
-        "commitment cap must have at least one entry"
-    );
-
     let mut heights_tallest_first = dimensions
         .iter()
         .enumerate()
@@ -1196,11 +1187,7 @@ fn arity4_prepare<EF: Field>(
     }
 
     let num_roots = commitment_cap.len();
-    let cap_log2 = if num_roots == 1 {
-        0
-    } else {
-        log2_strict_usize(num_roots)
-    };
+    let cap_log2 = merkle_cap_height(commitment_cap)?;
 
     let leaf_rows = arity4_leaf_rows(dimensions, max_height);
     let schedule = arity4_path_schedule(dimensions, max_height, num_roots);
